@@ -76,7 +76,7 @@ def main(argv=None):
         'samples': m['samples'] or ['(no sample recorded)'],
         'observed': {k: int(v) for k, v in sorted(c.items()) if k != 'evaluations'},
         'observed_distinct': {k: len(v) for k, v in sorted(m['sets'].items())},
-        'observed_values': {k: sorted(v)[:120] for k, v in sorted(m['sets'].items()) if len(v) <= 120},
+        'observed_values': {k: harness._sorted_any(v)[:120] for k, v in sorted(m['sets'].items()) if len(v) <= 120},
         'shards': len(specs),
         'slowest_shards_wall_s_index_kind': [list(x) for x in slow],
         'known_findings_seen': {k: int(v) for k, v in sorted(m['known'].items())},
